@@ -84,12 +84,18 @@ def mkval(spec):
         return np.array(spec[1])
     if k == "empty":
         return h5py.Empty("i4")
+    if k == "unstorable":
+        return object()  # rejected by HDF5 itself: the operation must fail WITHOUT any effect on both sides
     raise ValueError(spec)
 
 
 def token(rng, i: int):
     """A value that names the operation (index i) which wrote it."""
     r = rng.random()
+    if r < 0.05:  # one-byte opaque values (same shape/dtype as the deletion marker, but legal), marker-like two-byte values
+        return ["void", rng.choice(["61", "00", "ff", "7e", "7f00", "007f", "7f7f", "1a"])]
+    if r < 0.07:
+        return ["unstorable"]
     if r < 0.35:
         return ["int", 1000 + i]
     if r < 0.55:
@@ -227,6 +233,16 @@ def probes(root, paths, absent=()):
         if not is_ds(n):
             out["len:" + p] = len(n)
     out["len:/"] = len(root)
+    # visit/visititems stop as soon as the callback returns something that is not None -- also falsy values
+    for stopval in (0, "", False, b""):
+        seen = []
+
+        def cb(name, node=None, _s=stopval, _seen=seen):
+            _seen.append(name)
+            return _s if len(_seen) == 2 else None
+        out[f"visititems-stop:{stopval!r}"] = [repr(root.visititems(cb)), len(seen)]
+        seen.clear()
+        out[f"visit-stop:{stopval!r}"] = [repr(root.visit(cb)), len(seen)]
     for p in absent:
         out["in:" + p] = p in root
         out["get:" + p] = root.get(p) is None
